@@ -27,6 +27,7 @@ def profile():
         'malformed': [0.0],
         'subsampling': [1, 1, 2],
         'poison': 0.3,
+        'more_runs': 0.15,
     }, doc
 
 
